@@ -10,11 +10,12 @@ open XpmVerif.Ident List
 
 /-- **keyword / declaration order.** The stream hashed for a node does not depend on the order in
     which its arguments are stored or declared (argument names are distinct). -/
-theorem node_stream_argument_order (cfg : Nat → List Nat) (mt : Nat → Option Bool) (self : Nat) (nd nd' : Node)
+theorem node_stream_argument_order (cfg : Nat → List Nat) (ceq : Nat → Nat → Bool) (mt : Nat → Option Bool) (self : Nat)
+    (nd nd' : Node)
     (ht : nd.typeId = nd'.typeId) (hk : nd.task = nd'.task) (hp : nd.args ~ nd'.args)
     (hn : ∀ a b, a ∈ nd.args → b ∈ nd.args → a.name = b.name → a = b) :
-    nodeStream cfg mt self nd = nodeStream cfg mt self nd' :=
-  nodeStream_args_perm cfg mt self nd nd' ht hk hp hn
+    nodeStream cfg ceq mt self nd = nodeStream cfg ceq mt self nd' :=
+  nodeStream_args_perm cfg ceq mt self nd nd' ht hk hp hn
 
 /-- **dict insertion order.** Two dict values with the same items in another insertion order
     (keys distinct) are encoded identically. -/
@@ -28,15 +29,15 @@ theorem dict_insertion_order (cfg : Nat → List Nat) (mt : Nat → Option Bool)
 /-- **any depth.** If every node of two graphs has the same stream (e.g. because they differ only by
     the two reorderings above), all raw identifiers agree, for every hash function, under any stack. -/
 theorem raw_identifier_congruence {D : Type} (hc : HC D) (g g' : Graph)
-    (h : ∀ n cfg, nodeStream cfg g.mt n (g.node n) = nodeStream cfg g'.mt n (g'.node n)) (n : Nat)
+    (h : ∀ n cfg ceq, nodeStream cfg ceq g.mt n (g.node n) = nodeStream cfg ceq g'.mt n (g'.node n)) (n : Nat)
     (hs : g.size = g'.size) :
     rawId hc g n = rawId hc g' n := by
   unfold rawId; rw [hs]; exact rawAt_congr hc g g' h _ _ _
 
 /-- non-vacuity: a node with its two arguments swapped. -/
-example : nodeStream (fun _ => []) (fun _ => none) 0
+example : nodeStream (fun _ => []) (fun _ _ => false) (fun _ => none) 0
       { typeId := [97], args := [{ name := [120], value := .int 1 }, { name := [98], value := .str [65] }] }
-    = nodeStream (fun _ => []) (fun _ => none) 0
+    = nodeStream (fun _ => []) (fun _ _ => false) (fun _ => none) 0
       { typeId := [97], args := [{ name := [98], value := .str [65] }, { name := [120], value := .int 1 }] } := by decide
 
 /-- obligation on the *current source*: `HashComputer.compute` stores the loop flag in the attribute
@@ -77,22 +78,29 @@ theorem value_encoding_any_depth_order (cfg : Nat → List Nat) (mt : Nat → Op
     (h : Reord v v') (hd : DistinctKeys v) : encVal cfg mt v = encVal cfg mt v' :=
   encVal_reord cfg mt h hd
 
-/-- the comparison with the default (`default == remove_meta(value)`) does not see the reordering
-    either, whatever the default (dicts nested in dicts included). -/
-theorem default_comparison_any_depth_order (mt : Nat → Option Bool) (d : Val) {v v' : Val}
+/-- the comparison with the default (`_is_default(default, remove_meta(value))`) does not see the reordering
+    either, whatever the default (dicts nested in dicts, configuration objects included) and whatever the
+    outcome `ceq` of the comparisons of configuration identifiers. -/
+theorem default_comparison_any_depth_order (ceq : Nat → Nat → Bool) (mt : Nat → Option Bool) (d : Val) {v v' : Val}
+    (h : Reord v v') (hd : DistinctKeys v) :
+    isDefault ceq mt d (removeMeta mt v) = isDefault ceq mt d (removeMeta mt v') :=
+  isDefault_reord ceq mt d (removeMeta_reord mt h) (removeMeta_distinctKeys mt hd)
+
+/-- the same for Python `==` between values that are not configuration objects (the former rule). -/
+theorem equality_any_depth_order (mt : Nat → Option Bool) (d : Val) {v v' : Val}
     (h : Reord v v') (hd : DistinctKeys v) : pyEq d (removeMeta mt v) = pyEq d (removeMeta mt v') :=
   pyEq_reord d (removeMeta_reord mt h) (removeMeta_distinctKeys mt hd)
 
 /-- hence the four skip rules take the same decision for the reordered argument. -/
-theorem argument_inclusion_any_depth_order (mt : Nat → Option Bool) {a a' : Arg} (h : ArgReord a a')
-    (hd : DistinctKeys a.value) : included mt a = included mt a' :=
-  included_reord mt h hd
+theorem argument_inclusion_any_depth_order (ceq : Nat → Nat → Bool) (mt : Nat → Option Bool) {a a' : Arg}
+    (h : ArgReord a a') (hd : DistinctKeys a.value) : included ceq mt a = included ceq mt a' :=
+  included_reord ceq mt h hd
 
 /-- **node level, both reorderings at once.** -/
-theorem node_stream_any_depth_order (cfg : Nat → List Nat) (mt : Nat → Option Bool) (self : Nat) {nd nd' : Node}
-    (h : NodeReord nd nd') (hd : NodeDistinctKeys nd) :
-    nodeStream cfg mt self nd = nodeStream cfg mt self nd' :=
-  nodeStream_reord cfg mt self h hd
+theorem node_stream_any_depth_order (cfg : Nat → List Nat) (ceq : Nat → Nat → Bool) (mt : Nat → Option Bool) (self : Nat)
+    {nd nd' : Node} (h : NodeReord nd nd') (hd : NodeDistinctKeys nd) :
+    nodeStream cfg ceq mt self nd = nodeStream cfg ceq mt self nd' :=
+  nodeStream_reord cfg ceq mt self h hd
 
 /-- **raw identifier.** Arguments permuted and dicts reordered at every depth in every node:
     all raw identifiers agree, for every hash function. -/
